@@ -4,7 +4,7 @@ import common
 from common import Result, CheckError
 
 PID = "C12"
-COUNTS = {"quick": 6000, "thorough": 200000}
+COUNTS = {"quick": 4000, "thorough": 200000}
 PRE = ("From Coq Require Import String List.\nFrom Anko Require Import Env.EnvModel Env.EnvCases.\n"
        "Import ListNotations.\nOpen Scope string_scope.\n")
 
